@@ -181,8 +181,12 @@ func cmdCrash(args []string) int {
 		}
 		g := newGenState(fx, rng.Fork())
 		var curOp *Op
+		var hookMu sync.Mutex
 		inst.signHook = func(a *AcctInfo) {
 			// at the moment Sign is invoked the store must already dominate the request
+			// (batches sign from several workers at once)
+			hookMu.Lock()
+			defer hookMu.Unlock()
 			sv, err := inst.ReadStore(ctx)
 			if err != nil || curOp == nil {
 				return
